@@ -414,6 +414,8 @@ class Ctx:
             open(ef, "w").write(f["payload"] + "\n")
             outp = os.path.join(self.scratch, "confirm.ndjson")
             p = subprocess.run([fv, "record", f["family"], "-out", outp, "-one", ef], capture_output=True, text=True, errors="replace", timeout=300)
+            if go_fatal(p) or p.returncode == 5:
+                return True      # re-executing the case killed the process in the real code: reproduced, and worse
             if p.returncode != 0:
                 raise Broken("confirmation recorder failed: " + p.stdout + p.stderr)
             saved = (self.failures, self.validated, self.samples, self.stages)
